@@ -241,6 +241,16 @@ def inline_locals(f: FuncInfo, e: ast.expr, depth: int = 5, unpack: bool = False
         setattr(f, cache_name, cache)
     single, binds, loops = cache
     use_line = getattr(e, "lineno", None)
+    oc = getattr(f, "_sa_order", None)
+    if oc is None:
+        order = {id(n): i for i, n in enumerate(f.body_nodes())}
+        spans = []
+        for l in loops:
+            if id(l) in order:
+                spans.append((order[id(l)], max([order[id(x)] for x in ast.walk(l) if id(x) in order] or [order[id(l)]])))
+        oc = (order, spans)
+        f._sa_order = oc
+    order, spans = oc
     own_stmt = {id(b) for b in f.body_nodes() if isinstance(b, ast.Assign) and (b.value is e or any(x is e for x in ast.walk(b.value)))}
 
     def fresh(name: str) -> bool:
@@ -249,7 +259,13 @@ def inline_locals(f: FuncInfo, e: ast.expr, depth: int = 5, unpack: bool = False
         la = a.lineno
         reads = set()
         attr_bases = {id(n.value) for n in ast.walk(a.value) if isinstance(n, ast.Attribute) and isinstance(n.value, ast.Name)}
+        # (names bound by a comprehension inside the expression are its own: nothing outside can make them stale)
+        own = {x.id for c_ in ast.walk(a.value) if isinstance(c_, ast.comprehension) for x in ast.walk(c_.target) if isinstance(x, ast.Name)}
         for n in ast.walk(a.value):
+            if isinstance(n, ast.Name) and n.id in own:
+                continue
+            if isinstance(n, ast.Attribute) and isinstance(n.value, ast.Name) and n.value.id in own:
+                continue
             if isinstance(n, ast.Attribute) and isinstance(n.value, ast.Name):
                 reads.add(n.value.id)
                 reads.add(f"{n.value.id}.{n.attr}")
@@ -257,10 +273,25 @@ def inline_locals(f: FuncInfo, e: ast.expr, depth: int = 5, unpack: bool = False
                 # the object itself is read (passed on, indexed): any attribute store into it may matter
                 reads.add(n.id)
                 reads.update(k for k in binds if k.startswith(n.id + "."))
+        pa, pu = order.get(id(a)), order.get(id(e))
         for y in reads:
             for b in binds.get(y, ()):
                 if b is a:
                     continue
+                pb = order.get(id(b))
+                if pa is not None and pu is not None and pb is not None:
+                    # statement order (pre-order position in the function): also orders statements that share a line, e.g. the spliced body of an inlined helper
+                    def common_loop(p1, p2):
+                        return any(s_ <= p1 <= e_ and s_ <= p2 <= e_ for s_, e_ in spans)
+                    if pb < pa and not common_loop(pb, pa):
+                        continue   # bound before the temporary was computed (and not in a loop around it)
+                    if pb > pu and not common_loop(pb, pu):
+                        continue   # bound after the use, and no loop carries it back
+                    if isinstance(b, ast.For) and pb < pa:
+                        continue   # loop variable of a loop that encloses both
+                    if isinstance(b, ast.Assign) and id(b) in own_stmt and not any(s_ <= pb <= e_ and not (s_ <= pa <= e_) for s_, e_ in spans):
+                        continue   # bound by the very statement whose right-hand side holds the use
+                    return False
                 lb = getattr(b, "lineno", la)
                 if lb < la and not any(l.lineno <= lb <= getattr(l, "end_lineno", lb) and l.lineno <= la <= getattr(l, "end_lineno", la) for l in loops):
                     continue   # bound before the temporary was computed (and not in a loop around it)
